@@ -35,13 +35,22 @@ BAD_PLUGIN = {
     "can_c": {"over-64": 'version: "3"\nstruct A { x @0: u8, }\nstruct W { a @0: u64, b @1: u1, }\nimpl can for A { id: 1, device: "ecu", }\nimpl can for W { id: 2, device: "ecu", }\n', "unknown-struct": 'version: "3"\nstruct A { x @0: u8, }\nimpl can for A { id: 1, }\nimpl can for Zz { id: 2, }\n'},
 }
 
-DIR_STATES = ("empty", "stale-output", "unrelated", "stale-h", "subdir", "missing", "same-but-lf")
+# accepted schemas for which the plug-in returns one path twice (names that coincide after its own case conversion):
+# 'exactly the returned files with exactly the returned contents' cannot be honoured, the only consistent outcome is a refusal
+DUP_PATHS = {
+    "can_c": ("devices-equal-in-snake-case", 'version: "3"\nstruct M { a @0: u8, }\nstruct N { c @0: u16, }\nimpl can for M { id: 5, device: "Ecu", }\nimpl can for N { id: 6, device: "ecu", }\n'),
+    "cpp": ("services-equal-in-snake-case", 'version: "3"\nstruct A { x @0: u8, }\nservice FooBar @0 { method get(A) @0 returns A, }\nservice foo_bar @1 { method get(A) @0 returns A, }\n'),
+}
+
+DIR_STATES = ("empty", "stale-output", "unrelated", "stale-h", "subdir", "missing", "missing-nested", "same-but-lf")
 
 
 def make_dir_state(root, state, future_names):
     out = os.path.join(root, "out")
     if state == "missing":
         return out
+    if state == "missing-nested":
+        return os.path.join(out, "gen", "code")  # neither the directory nor its parents exist
     os.makedirs(out)
     if state == "stale-output":
         for n in future_names[:2] or ["default.fcp"]:
@@ -170,6 +179,19 @@ def make_fault_verifier(fail_at):
     return fv
 
 
+def _returned_paths(gen_name, fcp_text, scratch):
+    import importlib
+    from fcp.parser import get_fcp_from_string
+    from fcp.error import Logger
+
+    fcp = get_fcp_from_string(fcp_text, Logger({})).unwrap()
+    out = os.path.join(scratch, "dup-out")
+    with contextlib.redirect_stdout(io.StringIO()):
+        results = importlib.import_module("fcp_" + gen_name).Generator().generate(fcp, {"output": out, "templates": {}, "skels": {}})
+    shutil.rmtree(out, ignore_errors=True)
+    return [os.path.normpath(str(r["path"])) for r in results if r.get("type") == "file"]
+
+
 def run_generate(gen_name, fcp_text, out, verifier):
     from fcp.codegen import GeneratorManager
     from fcp.parser import get_fcp_from_string
@@ -267,6 +289,15 @@ def make_worker(tier):
                     else:
                         inp["fault_in"] = list(map(str, fv.fired))
                         judge_reject(S, inp, gen_name, before, out, verdict, detail, "injected:" + str(fv.fired[1]))
+                elif kind == "dup-paths":
+                    after = snapshot(out)
+                    returned = [r for r in _returned_paths(gen_name, text, root)]
+                    if len(set(returned)) == len(returned):
+                        pass  # the plug-in no longer returns a path twice: nothing to judge here
+                    elif verdict == "ok":
+                        S.violation("C10.accept", "C10.accept/one-path-returned-twice-and-silently-overwritten/%s" % gen_name, inp, expected="a refusal: %d results for %d paths" % (len(returned), len(set(returned))), actual={"verdict": verdict, "written": sorted(k for k in after if not k.startswith("dir:"))})
+                    elif any(not k.startswith("dir:") for k in after if k not in before):
+                        S.violation("C10.gate", "C10.gate/output-directory-touched/%s/dup-paths" % gen_name, inp, expected="nothing written", actual=sorted(set(after) - set(before)))
                 else:
                     judge_reject(S, inp, gen_name, before, out, verdict, detail, "rule:" + sname)
                 if len(S.samples) < 1:
@@ -407,6 +438,8 @@ def run(tier):
             for k in range(n):
                 for ds in dstates if sname == "can1" else ("stale-output",):
                     items.append(("fault", g, sname, text, ds, k))
+        if g in DUP_PATHS:
+            items.append(("dup-paths", g, DUP_PATHS[g][0], DUP_PATHS[g][1], "empty", None))
         bad = dict(BAD)
         bad.update(BAD_PLUGIN.get(g, {}))
         for sname, text in bad.items():
